@@ -17,7 +17,9 @@
    holdsb itself for every batch whose UDP datagrams all pass the coalescer's gates
    (C16_gro_holdsb_eligible_batches).
    The four repaired defects stay machine-checked as refutations about Old. *)
+From Coq Require Import String.
 From WG Require Import Base.Prelude Gen.Constants Gro.Bytes Gro.Model Gro.OldModel Gro.KernelSpec Gro.Spec Gro.Proofs Gro.Csum Gro.Headers Gro.HeadersTcp Gro.Lossless Gro.Holds Gro.Order Gro.CsumKept Gro.Examples Gro.HoldsAll.
+From WG Require Gro.CandAst Gen.GroAst Gro.CandAstProofs.
 From WG Require Gro.Check.
 Local Open Scope N_scope.
 
@@ -338,3 +340,21 @@ Proof. exact ex_prepend_ok. Qed.
 Example C16_nonvacuous_capacity_edge :
   s_tw (run ex_cap) = [0; 1] /\ s_tw (run ex_cap') = [0] /\ holds ex_cap = true /\ holds ex_cap' = true.
 Proof. exact ex_cap_ok. Qed.
+
+(* THE TIE TO THE SOURCE for the two pure predicates of the GRO path (translator
+   harness/cmd/groast, rerun on every check): Gen.GroAst.cand_body / hdr_body are
+   the bodies of packetIsGROCandidate and ipHeadersCanCoalesce of
+   tun/offload_linux.go as terms of the deep-embedded language of Gro/CandAst.v.
+   For EVERY byte list (and both values of the UDP flag) the interpreted source
+   returns the code of the model's classification, never panics and never
+   reaches an untranslated construct; the header comparison likewise. *)
+Theorem C16_source_candidate_is_the_model : forall b canUDP,
+  Gro.CandAst.run_cand Gen.GroAst.cand_body b canUDP =
+  Some (Gro.CandAstProofs.cand_code (classify b canUDP)).
+Proof. exact Gro.CandAstProofs.ast_cand_correct. Qed.
+Print Assumptions C16_source_candidate_is_the_model.
+
+Theorem C16_source_ip_headers_can_coalesce_is_the_model : forall a b,
+  Gro.CandAst.run_hdr Gen.GroAst.hdr_body a b = Some (ip_headers_can_coalesce a b).
+Proof. exact Gro.CandAstProofs.ast_hdr_correct. Qed.
+Print Assumptions C16_source_ip_headers_can_coalesce_is_the_model.
